@@ -420,9 +420,13 @@ class Array(AbstractValueWithQuantityObject, Generic[ValuesType]):
         else:
             # not numpy: create a new structure to hold the values
             result = []
+            q = None
             for v0, v1 in values_iteration:
                 q, v = operation_func(q1, q2, v0, v1)
                 result.append(v)
+            if q is None:
+                # No values to iterate on: the resulting quantity must still be obtained.
+                q, _ = operation_func(q1, q2, 1.0, 1.0)
 
             if values_iteration.IsTuple():
                 result = tuple(result)  # type:ignore[assignment]
